@@ -50,7 +50,7 @@ CPU_MODES_THOROUGH = CPU_MODES + [
 ]
 
 PROPS = {
-    "C01": dict(ties=['Loops', 'Protocol', 'ProtocolMp', 'Schedules', 'Consts', 'GoIpa.Lemmas.Grouping', 'GoIpa.Lemmas.DivideOnDomain', 'GoIpa.Lemmas.MpAlgebra', 'GoIpa.Lemmas.MpComplete', 'GoIpa.Lemmas.MpVerifier', 'GoIpa.Props.C01Complete', 'GoIpa.Lemmas.ZpField', 'GoIpa.Lemmas.Primes', 'GoIpa.Props.Concrete', 'GoIpa.Lemmas.Simulation', 'GoIpa.Props.ConcreteExec'], level="proof", selftest=True, modes=CPU_MODES, thorough=dict(modes=CPU_MODES_THOROUGH),
+    "C01": dict(ties=['Loops', 'Protocol', 'ProtocolMp', 'Schedules', 'Consts', 'GoIpa.Lemmas.Grouping', 'GoIpa.Lemmas.DivideOnDomain', 'GoIpa.Lemmas.MpAlgebra', 'GoIpa.Lemmas.MpComplete', 'GoIpa.Lemmas.MpVerifier', 'GoIpa.Props.C01Complete', 'GoIpa.Lemmas.ZpField', 'GoIpa.Lemmas.Primes', 'GoIpa.Props.Concrete', 'GoIpa.Lemmas.Simulation', 'GoIpa.Props.ConcreteExec', 'GoIpa.Props.C01Translated'], level="proof", selftest=True, modes=CPU_MODES, thorough=dict(modes=CPU_MODES_THOROUGH),
                 rule="openings sets over n in {1..300}, six z patterns (all equal, all distinct, two clusters, single index after a gap, straddling group, random), polynomials zero/constant/unit/sparse/r-1/random, commitments as shared pointers / rescaled / sign-flipped, labels empty..70 bytes; each case under several CPU-count/GOMAXPROCS configurations (taskset)."),
     "C02": dict(ties=['Loops', 'Protocol', 'Schedules', 'Consts', 'GoIpa.Props.C02Mp'], level="proof", selftest=True,
                 rule="honest (label,Cs,zs,ys,proof) tuples and every single-component perturbation, reorderings, dropped/duplicated openings, splices of two honest proofs, malformed shapes, well-formed garbage; each implementation decision also re-evaluated under three re-representations of all group elements."),
